@@ -113,6 +113,27 @@ func (g *Gate) Hook(c int) Interposer {
 	}
 }
 
+// Point is an explicit scheduling point of client c (label lbl) that is not a
+// storage call, e.g. "fin": a query that has been compiled (commit pinned)
+// waits here before it reads its data.
+func (g *Gate) Point(c int, lbl string) error {
+	g.mu.Lock()
+	if g.crashed[c] {
+		g.mu.Unlock()
+		return ErrCrashed
+	}
+	if g.free || g.state[c] != "running" {
+		g.mu.Unlock()
+		return nil
+	}
+	req := &gateReq{lbl: lbl, grant: make(chan error, 1)}
+	g.pending[c] = req
+	g.state[c] = "blocked"
+	g.cond.Broadcast()
+	g.mu.Unlock()
+	return <-req.grant
+}
+
 // Begin marks client c as running (call before its first operation).
 func (g *Gate) Begin(c int) {
 	g.mu.Lock()
